@@ -71,9 +71,11 @@ class Streams:
                     if sw:
                         for t in sw: items.setdefault(t, 'swapdown:' + name)
         items.setdefault(T.Identity(2), 'identity'); items.setdefault(T.Index(3, -2), 'index')
-        items.setdefault(T.Square(numpy.array([[2., 1.], [0., -.5]]), numpy.array([.5, 0.])), 'generic')
-        items.setdefault(T.Updim(numpy.array([[2.], [-.5]]), numpy.array([.5, 0.]), True), 'generic')
-        items.setdefault(T.Point(numpy.array([.5, .25])), 'point')
+        from nutils import types
+        ad = lambda a: types.arraydata(numpy.array(a, dtype=float))
+        items.setdefault(T.Square(ad([[2., 1.], [0., -.5]]), ad([.5, 0.])), 'generic')
+        items.setdefault(T.Updim(ad([[2.], [-.5]]), ad([.5, 0.]), True), 'generic')
+        items.setdefault(T.Point(ad([.5, .25])), 'point')
         for t, origin in items.items():
             def h(a, line, t=t, origin=origin):
                 self.tick('corr:item-affine')
@@ -88,7 +90,7 @@ class Streams:
     # -------------------------------------------------------------- stream B: swaps
     def check_swap_spec(self, direction, a, b, res, replay):
         """oracle: a swapped pair is the same affine map with the same orientation; returns True if fine"""
-        if res is None: return True
+        if res is None or a.fromdims != b.todims: return True   # ill-matched pairs never occur in a chain: model-vs-code only
         x, y = res
         ok = True
         try:
@@ -228,14 +230,300 @@ class Streams:
                 except Unsupported:
                     pass
 
+    # -------------------------------------------------------------- stream D: sequences
+    def real_topologies(self):
+        """(label, topology) built by real topology operations; exceptions of unsupported combinations are skipped"""
+        from nutils import mesh
+        rng = self.rng
+        out = []
+        def add(label, f):
+            try:
+                t = f()
+                len(t.transforms), len(t.opposites), len(t.references)
+                out.append((label, t))
+                return t
+            except Exception as e:
+                self.c.count('topo-skipped:' + type(e).__name__)
+                return None
+        def derive(label, t, depth):
+            """random pipeline of operations"""
+            if t is None or depth == 0 or len(t) == 0 or len(t) > 80: return
+            n = len(t)
+            ops = ['refined', 'boundary', 'interfaces', 'take', 'compress', 'refined_by', 'union', 'sub', 'slice', 'bname']
+            for op in rng.sample(ops, 3 if self.quick else 6):
+                if op in ('refined', 'boundary', 'interfaces'):
+                    u = add(label + '.' + op, lambda: getattr(t, op))
+                elif op == 'take':
+                    idx = sorted(rng.sample(range(n), rng.randint(1, n)))
+                    if rng.random() < .3: rng.shuffle(idx)
+                    u = add(label + '.take', lambda: t.take(idx))
+                elif op == 'compress':
+                    mask = [rng.random() < .6 for _ in range(n)]
+                    u = add(label + '.compress', lambda: t.compress(mask))
+                elif op == 'refined_by':
+                    idx = rng.sample(range(n), rng.randint(1, min(n, 3)))
+                    u = add(label + '.refined_by', lambda: t.refined_by(idx))
+                elif op == 'union':
+                    k = rng.randint(1, n)
+                    u = add(label + '.union', lambda: t.take(list(range(k))) | t.take(list(range(k, n)))) if k < n else None
+                elif op == 'sub':
+                    k = rng.randint(1, n)
+                    u = add(label + '.sub', lambda: t - t.take(list(range(k))))
+                elif op == 'slice':
+                    u = add(label + '.slice', lambda: t[tuple(slice(rng.randint(0, 1), None) for _ in range(t.ndims))])
+                else:
+                    u = add(label + '.bname', lambda: t.boundary[rng.choice(['left', 'right', 'top', 'bottom'])])
+                derive(label + '.' + op, u, depth - 1)
+        bases = []
+        shapes = [[2], [3], [2, 2], [2, 3], [1, 2], [2, 1, 2], [1, 1, 1]]
+        for shape in (rng.sample(shapes, 3) if self.quick else shapes):
+            per = [d for d in range(len(shape)) if shape[d] > 1 and rng.random() < .3]
+            bases.append(('rect%s%s' % (shape, 'p%s' % per if per else ''), lambda shape=shape, per=per: mesh.rectilinear(shape, periodic=per)[0]))
+        for et in ('triangle', 'mixed', 'square'):
+            bases.append(('unitsquare-' + et, lambda et=et: mesh.unitsquare(rng.choice([1, 2]), et)[0]))
+        def tets():
+            nodes = numpy.array([[0, 1, 2, 3], [1, 2, 3, 4]]); coords = numpy.array([[0, 0, 0], [1, 0, 0], [0, 1, 0], [0, 0, 1], [1, 1, 1.]])
+            return mesh.simplex(nodes, nodes, coords, {}, {}, {})[0]
+        bases.append(('tets', tets))
+        bases.append(('line-periodic', lambda: mesh.line(3, periodic=True)[0]))
+        for label, f in bases:
+            t = add(label, f)
+            derive(label, t, 2 if self.quick else 3)
+        return out
+
+    def synthetic(self):
+        """(label, Transforms, [reference per element]) nestings built directly from the transformseq classes"""
+        from nutils import transformseq as S, transform as T, elementseq, types
+        rng = self.rng
+        kinds = dict((n, r) for n, r in self.refs if r.ndims)
+        out = []
+        counter = [0]
+        def base():
+            name = rng.choice(['line', 'square', 'triangle', 'cube', 'tetrahedron', 'prism', 'linetri'])
+            ref = kinds[name]; nd = ref.ndims
+            n = rng.randint(1, 4); off = counter[0]; counter[0] += n + rng.randint(0, 2)
+            r = rng.random()
+            if r < .5:
+                return 'Index', S.IndexTransforms(nd, n, off), [ref] * n
+            # plain: index roots followed by children; canonical and prefix-free by construction (distinct roots)
+            chains = []; refs = []
+            for k in range(n):
+                w = ref_walk(rng, ref, rng.randint(0, 2), pedge=0)
+                chains.append((T.Index(nd, off + k),) + w); refs.append(ref)
+            order = list(range(n)); rng.shuffle(order)
+            return 'Plain', S.PlainTransforms(tuple(chains[i] for i in order), nd, nd), [refs[i] for i in order]
+        def grow(label, ts, refs, depth):
+            out.append((label, ts, refs))
+            if depth == 0 or len(ts) == 0 or len(ts) > 40: return
+            n = len(ts)
+            for op in rng.sample(['masked', 'reordered', 'refined', 'edges', 'chain', 'getitem'], 2):
+                try:
+                    if op == 'masked':
+                        idx = sorted(rng.sample(range(n), rng.randint(1, n)))
+                        if len(idx) == n: continue
+                        u, r = S.MaskedTransforms(ts, types.arraydata(numpy.array(idx, dtype=int))), [refs[i] for i in idx]
+                    elif op == 'reordered':
+                        idx = list(range(n)); rng.shuffle(idx)
+                        u, r = S.ReorderedTransforms(ts, types.arraydata(numpy.array(idx, dtype=int))), [refs[i] for i in idx]
+                    elif op == 'getitem':
+                        idx = rng.sample(range(n), rng.randint(1, n))
+                        u, r = ts[numpy.array(idx, dtype=int)], [refs[i] for i in idx]
+                    elif op == 'refined':
+                        u = ts.refined(elementseq.References.from_iter(refs, ts.fromdims)); r = [cr for ref in refs for cr in ref.child_refs]
+                    elif op == 'edges':
+                        if ts.fromdims == 0: continue
+                        u = ts.edges(elementseq.References.from_iter(refs, ts.fromdims)); r = [er for ref in refs for er in ref.edge_refs]
+                    else:
+                        l2, t2, r2 = base()
+                        # bring the second operand to the same dimensions by the same kind of derivation, if possible
+                        while t2.fromdims > ts.fromdims:
+                            t2, r2 = t2.edges(elementseq.References.from_iter(r2, t2.fromdims)), [er for ref in r2 for er in ref.edge_refs]
+                        if t2.fromdims != ts.fromdims or t2.todims != ts.todims: continue
+                        if rng.random() < .5: u, r = ts + t2, refs + r2
+                        else: u, r = t2 + ts, r2 + refs
+                except Exception as e:
+                    self.c.count('synthetic-skipped:' + type(e).__name__); continue
+                grow(label + '.' + op, u, r, depth - 1)
+        for _ in range(8 if self.quick else 120):
+            l, ts, refs = base()
+            grow(l, ts, refs, 3)
+        return out
+
+    def foreign_chains(self, pool, ts, i):
+        """chains that are (very likely) not in `ts`: for the error paths"""
+        from nutils import transform as T
+        rng = self.rng
+        ch = list(ts[i]); r = rng.random()
+        if r < .25 and len(ch) > 1: ch = ch[:-1]
+        elif r < .5:
+            k = rng.randrange(len(ch))
+            if isinstance(ch[k], T.Index): ch[k] = T.Index(ch[k].todims, ch[k].index + rng.choice([-7, 5, 100]))
+            else: ch[k] = T.Identity(ch[k].fromdims) if ch[k].fromdims == ch[k].todims else ch[k]
+        elif r < .75 and pool:
+            o = rng.choice(pool)
+            if len(o): ch = list(o[rng.randrange(len(o))])
+        else:
+            ch = ch + [T.Identity(ch[-1].fromdims)]
+        return tuple(ch)
+
     def sequences(self):
-        pass
+        from nutils import transformseq as S
+        rng = self.rng
+        seqs = []   # (label, transforms, refs or None)
+        for label, t in self.real_topologies():
+            refs = list(t.references)
+            seqs.append((label + ':transforms', t.transforms, refs))
+            if t.opposites is not t.transforms and t.opposites != t.transforms:
+                seqs.append((label + ':opposites', t.opposites, None))   # opposite sides: element references need not match
+        seqs += self.synthetic()
+        pool = [ts for _, ts, _ in seqs]
+        self.seqs = seqs
+        seen = set()
+        maxel = 8 if self.quick else 24
+        for label, ts, refs in seqs:
+            try:
+                sseq = ser_seq(ts)
+            except Unsupported as e:
+                self.c.count('seq-unsupported:' + str(e)); continue
+            if len(sseq) > 60000: self.c.count('seq-too-long'); continue
+            n = len(ts)
+            shape = seq_shape(ts)
+            chains = [tuple(ch) for ch in ts] if n <= 400 else None
+            if chains is not None:
+                allc = set(chains)
+                if len(allc) < n or any(ch[:k] in allc for ch in chains for k in range(1, len(ch))):
+                    self.c.count('seq-not-prefix-free'); continue   # violates the contract of Transforms: outside the property
+            elems = list(range(n)) if n <= maxel else sorted(rng.sample(range(n), maxel))
+            queries = [('len',), ('dims',)]
+            for i in elems:
+                ch = tuple(ts[i])
+                queries.append(('get', i))
+                queries.append(('index', i, ch))
+                tails = [()]
+                if refs is not None:
+                    tails = [ref_walk(rng, refs[i], rng.randint(0, 4), pedge=rng.choice([0, .3, .5])) for _ in range(2)]
+                for tail in tails:
+                    queries.append((rng.choice(['iwt', 'iwt', 'contains']), i, ch, tail))
+                if rng.random() < .4:
+                    queries.append(('foreign', rng.choice(['iwt', 'index', 'contains']), self.foreign_chains(pool, ts, i)))
+            if n == 0:
+                queries.append(('foreign', 'iwt', tuple(rng.choice(pool)[0]) if len(rng.choice(pool)) else ()))
+            key = (sseq, tuple(repr(q) for q in queries))
+            if key in seen: continue
+            seen.add(key)
+            def q2s(q):
+                if q[0] in ('len', 'dims'): return q[0]
+                if q[0] == 'get': return 'get %d' % q[1]
+                if q[0] == 'index': return 'index ' + ser_chain(q[2])
+                if q[0] == 'foreign': return q[1] + ' ' + ser_chain(q[2])
+                return q[0] + ' ' + ser_chain(q[2] + q[3])
+            try:
+                line = 'seq|%s|%d|%s' % (sseq, rng.random() < .5, '|'.join(q2s(q) for q in queries))
+            except Unsupported as e:
+                self.c.count('seq-unsupported:' + str(e)); continue
+            def h(ans, line, label=label, ts=ts, queries=queries, shape=shape, sseq=sseq):
+                self.c.count('seq-shape:' + shape)
+                if ans == 'bad-request':
+                    self.disagree('corr:sequence-protocol', 'driver rejected the serialised sequence', dict(label=label, request=line[:2000])); return
+                answers = ans.split('|')
+                assert len(answers) == len(queries)
+                for q, a in zip(queries, answers):
+                    self.check_query(label, ts, shape, sseq, q, a)
+            self.b.add(line, h)
+
+    def check_query(self, label, ts, shape, sseq, q, a):
+        c = self.c
+        replay = dict(sequence=label, shape=shape, seq=sseq[:4000], query=repr(q), model=a)
+        if q[0] == 'len':
+            self.tick('corr:len'); c.case(('len', sseq), nontrivial=False)
+            if a != '%d' % len(ts): self.disagree('corr:len', 'len differs', dict(replay, real=len(ts)))
+            return
+        if q[0] == 'dims':
+            self.tick('corr:len')
+            if a != '%d %d' % (ts.todims, ts.fromdims): self.disagree('corr:len', 'todims/fromdims differ', dict(replay, real=(ts.todims, ts.fromdims)))
+            return
+        if q[0] == 'get':
+            self.tick('corr:getitem'); c.case(('get', sseq, q[1]), nontrivial=True)
+            want = ser_chain(ts[q[1]])
+            ch = ts[q[1]]
+            if not chain_dims_ok(ch) or ch[0].todims != ts.todims or ch[-1].fromdims != ts.fromdims:
+                self.fail('corr:getitem', 'getitem-ill-formed-chain', '%s[%d] = %r is not a chain from fromdims to todims' % (label, q[1], ch), replay); return
+            if a != want: self.disagree('corr:getitem', 'transforms[%d] differs' % q[1], dict(replay, real=want))
+            return
+        if q[0] == 'foreign':
+            op, ch = q[1], q[2]
+            ob = 'corr:lookup-foreign'
+            self.tick(ob); c.case((op, sseq, ser_chain(ch)), nontrivial=len(ch) >= 2)
+            out = outcome(getattr(ts, dict(iwt='index_with_tail', index='index', contains='contains')[op]), ch)
+            c.count('foreign:%s:%s' % (op, out[0] if out[0] != 'ok' or op != 'contains' else out[1]))
+            # oracle: whatever is returned must be consistent: index in range and head ++ tail the same affine map as the query
+            if out[0] == 'ok' and op == 'iwt':
+                i, tail = out[1]
+                if not (0 <= i < len(ts)) or chain_aff(tuple(ts[int(i)]) + tuple(tail)) != chain_aff(ch):
+                    self.fail(ob, 'lookup-returns-wrong-element', 'index_with_tail(%r) = %r, but transforms[%d] + tail is a different map' % (ch, out[1], i), dict(replay, real=repr(out))); return
+            want = self.ser_outcome(op, out)
+            if want is None: return
+            if a != want: self.disagree(ob, 'model and code disagree on %s of a foreign chain' % op, dict(replay, real=want))
+            return
+        op, i, ch = q[0], q[1], q[2]
+        tail = q[3] if len(q) > 3 else ()
+        full = tuple(ch) + tuple(tail)
+        ob = 'corr:' + dict(iwt='index_with_tail', index='index', contains='contains')[op]
+        self.tick(ob); c.case((op, sseq, ser_chain(full)), nontrivial=len(full) >= 2)
+        c.count('lookup:taillen=%d' % len(tail)); c.count('lookup:tail-updims=%d' % sum(t.fromdims != t.todims for t in tail))
+        out = outcome(getattr(ts, dict(iwt='index_with_tail', index='index', contains='contains')[op]), full)
+        replay['real'] = repr(out); replay['element'] = i; replay['tail'] = repr(tail)
+        # ---- specification oracle
+        if op == 'index':
+            if out != ('ok', i):
+                self.fail(ob, 'index-of-own-element-wrong', '%s.index(transforms[%d]) gives %r' % (label, i, out), replay); return
+        elif op == 'contains':
+            if out != ('ok', not tail):
+                self.fail(ob, 'contains-wrong', '%s.contains(transforms[%d] + %r) gives %r' % (label, i, tail, out), replay); return
+        else:
+            if out[0] != 'ok' or out[1][0] != i:
+                self.fail(ob, 'lookup-of-own-element-wrong', '%s.index_with_tail(transforms[%d] + %r) gives %r instead of element %d' % (label, i, tail, out, i), replay); return
+            rem = tuple(out[1][1])
+            if (not chain_dims_ok(rem) or chain_aff(rem, ts.fromdims) != chain_aff(tail, ts.fromdims) or chain_flip(rem) != chain_flip(tail)):
+                self.fail(ob, 'lookup-remainder-wrong', '%s.index_with_tail(transforms[%d] + %r) returns remainder %r: not the same affine map' % (label, i, tail, rem), replay); return
+            self.c.traces += 1
+        want = self.ser_outcome(op, out)
+        if want is not None and a != want:
+            self.disagree(ob, 'model and code disagree on %s' % op, dict(replay, want=want))
+
+    def ser_outcome(self, op, out):
+        if out[0] == 'err': return 'err ' + out[1]
+        if out[0] != 'ok': return None    # other exception types: outside the model
+        if op == 'iwt': return 'ok %d %s' % (out[1][0], ser_chain(out[1][1]))
+        if op == 'index': return 'ok %d' % out[1]
+        return 'ok %d' % out[1]
 
     def containers(self):
         pass
 
     def real_only(self):
-        pass
+        self.known_tensor4d()
+
+    # -------------------------------------------------------------- corpus: the recorded 4-D defect
+    def known_tensor4d(self):
+        """edges(edges(refined(edges(4-D tensor elements)))): TensorEdge.swapdown yields an Identity that swapup cannot swap back"""
+        from nutils import element, transformseq as S, elementseq as E
+        sig = 'lookup-own-element:swapdown-identity-not-swapped-back'
+        L = element.LineReference(); R = E.References.from_iter
+        s = S.IndexTransforms(4, 1); r = [L**4]
+        s, r = s.edges(R(r, 4)), [e for x in r for e in x.edge_refs]
+        s, r = s.refined(R(r, 3)), [c_ for x in r for c_ in x.child_refs]
+        s, r = s.edges(R(r, 3)), [e for x in r for e in x.edge_refs]
+        s, r = s.edges(R(r, 2)), [e for x in r for e in x.edge_refs]
+        out = outcome(s.index, s[9])
+        still = out != ('ok', 9)
+        self.tick('explore:known-4d-lookup'); self.c.case(('known-4d',), nontrivial=True)
+        entry = self.c.match_known(sig)
+        if entry is not None:
+            self.c.report_known_still_failing(entry, still)
+        elif still:
+            self.c.failing_input(sig, 'index_with_tail fails on own element 9 of edges(edges(refined(edges(IndexTransforms(4,1) of a tesseract)))): %r' % (out,),
+                                 dict(op='known-4d', real=repr(out), chain=repr(s[9])))
 
     def search_after_broken_proof(self, name):
         self.c.broken_no_input('proof', name, dict(detail=name))
